@@ -1,6 +1,8 @@
 import Capella.Lemmas.CoupledList
 import Capella.Lemmas.CoupledAssign
 import Capella.Gen.Descr
+import Capella.Gen.Acc
+import Capella.Lemmas.AccessorProps
 
 /-!
 # C08 — model-coupled lists behave like Python lists and write through
@@ -124,5 +126,39 @@ example : view (insertChild [(1, true), (7, false), (2, true), (8, false)] 5 9) 
 example : view (assign [(1, true), (7, false), (2, true), (3, true), (8, false)] [3, 9, 1]) = [3, 9, 1] := by decide
 example : others (assign [(1, true), (7, false), (2, true), (3, true), (8, false)] [3, 9, 1]) = [7, 8] := by decide
 example : (Capella.Gen.Descr.table.filter (fun r => r.writable && r.aslist)).length > 100 := by decide +kernel
+
+/-! ### the accessor layer (`Model/Accessor.lean`) -/
+section Accessor
+open Capella.Accessor Capella.AccTable
+
+/-- Every relation descriptor of every registered class that is writable is of a kind whose mutation methods the
+accessor model implements (DirectProxy / AttributeMatcher / RoleTag / Link / AttrProxy / PhysicalLinkEnds) or of a
+kind that only delegates (Typecast, the virtual ReqIF relations), and carries the parameters that kind needs
+(kernel-checked per 50-row chunk of the table generated from the live classes on every run). -/
+theorem every_writable_relation_implemented : ∀ r ∈ Capella.Gen.Acc.table, r.implemented = true :=
+  Capella.Gen.Acc.table_implemented
+
+/-- A rejected insertion changes nothing — `NewObject`s and objects of another model, for every relation kind, every
+index and every list in hand: no tree, no index, no detached element differs afterwards. -/
+theorem rejected_insert_changes_nothing (row : ARow) (owner : Nat) (elems : List Nat) (i : Int) (s : State) :
+    (∀ h, Same s (listInsert row owner elems i (.newObject h) s).st) ∧ Same s (listInsert row owner elems i .foreign s).st :=
+  ⟨fun h => (frame_listInsert_newObject row owner elems i h).fr s, (frame_listInsert_foreign row owner elems i).fr s⟩
+
+/-- A fixed-length relation that is full refuses every insertion with TypeError and changes nothing. -/
+theorem full_fixed_length_list_refuses_insert (row : ARow) (owner : Nat) (elems : List Nat) (i : Int) (v : Val) (s : State)
+    (hf : row.fixed ≠ 0) (hl : elems.length ≥ row.fixed) :
+    (listInsert row owner elems i v s).val = .error .typeError ∧ Same s (listInsert row owner elems i v s).st :=
+  listInsert_fixed row owner elems i v s hf hl
+
+/-- The member sequence `AttrProxyAccessor.insert` writes is Python's `list.insert` applied to the list in hand, for
+every integer index (so the list in hand, which mirrors the edit with `list.insert`, and the stored attribute agree). -/
+theorem attr_insert_writes_list_insert (elems : List Nat) (i : Int) (v : Nat) :
+    elems.take (pySliceBound elems.length i) ++ [v] ++ elems.drop (pySliceBound elems.length i)
+      = Capella.CoupledList.pyInsert elems i v :=
+  attrInsert_seq elems i v
+
+end Accessor
+
+example : (Capella.Gen.Acc.table.filter (fun r => r.writable)).length > 300 := by decide +kernel
 
 end Capella.Props.C08
